@@ -27,7 +27,9 @@ func HarnessBackToBackChanges() {
 	} else {
 		file = NewFileCache[vmeta](cfg, "var/vcache", 1<<30, time.Hour, 2, context.Background())
 	}
-	vDropPending() // the janitor loop is not scheduled in this history
+	vAssert(vPendingCount() == 1, "c13.janitor-goroutine-not-started")
+	vRunPendingAt(0) // the janitor loop starts and waits for its ticker / a change / stop
+	vAssert(vParkedCount() == 1 && vPendingCount() == 0, "c13.janitor-loop-not-waiting")
 	setting := symChoice(3)
 	a, b := symInt(), symInt() // two values in the valid range of every one of the settings
 	vAssume(a >= 1 && a <= 90)
@@ -55,28 +57,26 @@ func HarnessBackToBackChanges() {
 		return
 	}
 	vAssert(n1 == 1 && n == 2, "c19.listener-not-notified")
-	// any order of the two notification goroutines; the janitor loop (not scheduled as a
-	// goroutine here) takes what a listener hands over as soon as it is handed over
-	last := time.Duration(0)
+	// any order of the two notification goroutines; the janitor loop either takes what a
+	// listener hands over at once, or is busy (not scheduled) until both listeners have run
 	j := file.janitorOf(mem)
-	receive := func() {
-		for len(j.intervalChanged) > 0 {
-			last = <-j.intervalChanged
-		}
-	}
-	if symChoice(2) == 0 {
-		vRunPendingAt(0)
-		receive()
-		vRunPendingAt(0)
-		vReach("in-order")
-	} else {
-		vRunPendingAt(1)
-		receive()
-		vRunPendingAt(0)
+	first := 0
+	if symChoice(2) == 1 {
+		first = 1
 		vReach("reordered")
+	} else {
+		vReach("in-order")
 	}
-	receive()
-	vAssert(vPendingCount() == 0, "c19.back-to-back.notification-never-delivered")
+	busy := symChoice(2) == 1
+	vRunPendingAt(first)
+	if busy {
+		vReach("janitor-busy")
+	} else {
+		vResumeParked() // the janitor loop takes the value at once
+	}
+	vRunPendingAt(0)
+	vRunPending() // everybody runs until nobody can go on
+	vAssert(vPendingCount() == 0 && vParkedCount() == 1, "c19.back-to-back.notification-never-delivered")
 	switch setting {
 	case 0:
 		var got int64
@@ -90,7 +90,7 @@ func HarnessBackToBackChanges() {
 	case 1:
 		vAssert(mem.memoryCap == (1<<40)*int64(b)/100, "c19.back-to-back.memory-budget-not-the-latest")
 	default:
-		vAssert(last == time.Duration(b)*time.Minute, "c19.back-to-back.cleanup-interval-not-the-latest")
+		vAssert(j.interval == time.Duration(b)*time.Minute && vTickerInterval() == time.Duration(b)*time.Minute, "c19.back-to-back.cleanup-interval-not-the-latest")
 	}
 }
 
